@@ -32,6 +32,7 @@ import Noodles.Util.DriverC20
 import Noodles.Util.DriverC20More
 import Noodles.Io.DriverC12
 import Noodles.Io.DriverC12More
+import Noodles.Io.DriverC12Comp
 import Noodles.Bgzf.DriverC16
 import Noodles.Cram.DriverC08
 import Noodles.Cram.DriverC07
@@ -58,6 +59,7 @@ def dispatch (line : String) : String :=
   | "c09" :: rest => ((Vcf.DriverHeader.handle? rest).orElse fun _ => Vcf.DriverLazyAny.handle? rest).getD (Vcf.Driver.handle rest)
   | "c06" :: rest => (Sam.LazyFile.Drv.handle? rest <|> Sam.File.Drv.handle? rest).getD (Sam.Drv.handleC06 rest)
   | "c20" :: rest => (Util.DriverMore.handle? rest).getD (Util.handleC20 rest)
+  | "c12" :: "comp" :: rest => IO.Comp.handleC12Comp rest
   | "c12" :: rest => IO.handleC12All rest
   | "c16" :: rest => Bgzf.Async.handleC16 rest
   | "c08" :: rest => Cram.DriverC08.handle rest
